@@ -6,6 +6,7 @@ import (
 	"encoding/json"
 	"fmt"
 	"math/big"
+	"regexp"
 	"strings"
 
 	ecom "github.com/ethereum/go-ethereum/common"
@@ -37,6 +38,17 @@ import (
 // with the same libraries the code calls); Exec re-computes them and refuses a line whose tables are stale.
 type evm struct {
 	pow
+	posa    *posaState
+	posaErr string
+}
+
+func (f *evm) Reset(r *hx.Run) {
+	f.pow.Reset(r)
+	f.posa = nil
+	db := storage.NewCacheDB(f.backend)
+	posaSetup(db)
+	quorumSetup(db)
+	db.Commit()
 }
 
 func init() { families["evm"] = func() hx.Family { return &evm{} } }
@@ -109,6 +121,7 @@ type depositOp struct {
 	ccmc          []byte
 	jsonOK        bool
 	p             ccmeth.ETHProof
+	raw           []byte // the proof as submitted (JSON text)
 	extra         []byte
 	wellFormed    bool // every string of the proof is plain 0x-prefixed even-length hex of the natural size
 	ktab, vptab   string
@@ -142,41 +155,50 @@ func (d *depositOp) tables(roots []ecom.Hash) (string, string) {
 }
 
 func (d *depositOp) line() string {
-	j := "json=ok"
-	if !d.jsonOK {
-		j = "json=bad"
-	}
-	parts := []string{"deposit", fmt.Sprint(d.btw), fmt.Sprint(d.height), hx.Hex(d.ccmc), j, sTok(d.p.Address), sTok(d.p.Balance), sTok(d.p.CodeHash),
-		sTok(d.p.Nonce), sTok(d.p.StorageHash), lTok(d.p.AccountProof), fmt.Sprint(len(d.p.StorageProofs))}
-	for _, sp := range d.p.StorageProofs {
-		parts = append(parts, sTok(sp.Key), lTok(sp.Proof))
-	}
-	parts = append(parts, hx.Hex(d.extra), d.ktab, d.vptab)
-	return strings.Join(parts, " ")
+	return strings.Join([]string{"deposit", fmt.Sprint(d.btw), fmt.Sprint(d.height), hx.Hex(d.ccmc), "j:" + hex.EncodeToString(d.raw),
+		hx.Hex(d.extra), d.ktab, d.vptab}, " ")
+}
+
+// setRaw fixes the submitted JSON text and derives from it (with encoding/json and the code's own struct) what the
+// oracle tables and the property evaluation need.
+func (d *depositOp) setRaw(raw []byte) {
+	d.raw = raw
+	d.p = ccmeth.ETHProof{}
+	d.jsonOK = json.Unmarshal(raw, &d.p) == nil
 }
 
 func parseDeposit(op []string) (*depositOp, bool) {
-	if len(op) < 15 {
+	if len(op) != 8 || !strings.HasPrefix(op[4], "j:") {
 		return nil, false
 	}
-	d := &depositOp{btw: u64Of(op[1]), height: uint32(u64Of(op[2])), ccmc: hx.UnHex(op[3]), jsonOK: op[4] == "json=ok"}
-	d.p = ccmeth.ETHProof{Address: sOf(op[5]), Balance: sOf(op[6]), CodeHash: sOf(op[7]), Nonce: sOf(op[8]), StorageHash: sOf(op[9]), AccountProof: lOf(op[10])}
-	n := int(u64Of(op[11]))
-	rest := op[12:]
-	if len(rest) != 2*n+3 {
+	raw, err := hex.DecodeString(op[4][2:])
+	if err != nil {
 		return nil, false
 	}
-	for i := 0; i < n; i++ {
-		d.p.StorageProofs = append(d.p.StorageProofs, ccmeth.StorageProof{Key: sOf(rest[2*i]), Proof: lOf(rest[2*i+1])})
-	}
-	d.extra = hx.UnHex(rest[2*n])
-	d.ktab, d.vptab = rest[2*n+1], rest[2*n+2]
+	d := &depositOp{btw: u64Of(op[1]), height: uint32(u64Of(op[2])), ccmc: hx.UnHex(op[3]), extra: hx.UnHex(op[5]), ktab: op[6], vptab: op[7]}
+	d.setRaw(raw)
 	return d, true
 }
 
 func (f *evm) Exec(r *hx.Run, op []string) string {
 	if op[0] != "deposit" {
-		return f.pow.Exec(r, op)
+		res := f.pow.Exec(r, op)
+		// accepted trust roots / headers are also built, really sealed, in the PoSA siblings' own header stores
+		if op[0] == "genesis" && !strings.HasPrefix(res, "reject") && res != "bad-op" {
+			if h, err := powHeader(op[2:]); err == nil {
+				f.posaGenesis(r, h)
+			}
+		}
+		if op[0] == "sync" && strings.HasPrefix(res, "ok ") {
+			var hs []*eth.Header
+			for i := 1; i+powTok <= len(op); i += powTok {
+				if h, err := powHeader(op[i : i+powTok]); err == nil {
+					hs = append(hs, h)
+				}
+			}
+			f.posaSync(r, hs)
+		}
+		return res
 	}
 	setNetwork(f.net)
 	d, ok := parseDeposit(op)
@@ -204,10 +226,7 @@ func (f *evm) Exec(r *hx.Run, op []string) string {
 	if !sameTable(kt, d.ktab) || !sameTable(vt, d.vptab) {
 		return "bad-op:stale-oracle-tables"
 	}
-	proof := []byte(`{"address":`)
-	if d.jsonOK {
-		proof, _ = json.Marshal(&d.p)
-	}
+	proof := d.raw
 	side := &side_chain_manager.SideChain{ChainId: powChain, BlocksToWait: d.btw, CCMCAddress: d.ccmc}
 	param, verr := ccmeth.VerifVerifyFromEthTx(newService(db, nil), proof, d.extra, powChain, d.height, side)
 	res := depositClass(verr)
@@ -216,11 +235,21 @@ func (f *evm) Exec(r *hx.Run, op []string) string {
 			hx.Hex(param.ToContractAddress), hx.Hex([]byte(param.Method)), hx.Hex(param.Args)}, ":")
 	}
 	f.depositOracle(r, d, st, hdrs, res)
-	// the quorum router's proof check, against the main-chain block of that height (its own header check is C29/C30)
+	// the quorum router: its proof check alone (verif wrapper) and the whole MakeDepositProposal with a really signed
+	// Istanbul header that commits to the main-chain block of that height (its validator-signature rule is C29/C30)
 	quorum := "na"
 	if blk, _, err := eth.GetHeaderByHeight(newService(db, nil), uint64(d.height), powChain); err == nil {
-		quorum = depositClass(ccmquorum.VerifVerifyFromQuorumTx(proof, d.extra, toGeth(blk), side))
-		r.Hist("evm.quorum." + quorum)
+		pc := depositClass(ccmquorum.VerifVerifyFromQuorumTx(proof, d.extra, toGeth(blk), side))
+		quorum = f.quorumDeposit(r, d, proof, blk)
+		r.Hist("evm.quorum." + strings.SplitN(quorum, ":", 2)[0] + "/" + strings.TrimPrefix(pc, "reject:"))
+		// the full handler decodes the message first and then must agree with its proof check
+		short := quorum
+		if strings.HasPrefix(short, "ok:") {
+			short = "ok"
+		}
+		if short != "reject:decode" && short != pc {
+			r.Viol("C23:quorum:handler-differs-from-proof-check", fmt.Sprintf("quorum MakeDepositProposal answers %s, its proof check alone %s", short, pc))
+		}
 	}
 	return res + " " + f.siblings(r, d, st, hdrs, proof, res) + " quorum=" + quorum
 }
@@ -704,6 +733,15 @@ func (f *evm) Gen(r *hx.Run) {
 						roots = append(roots, x.h.Root)
 					}
 				}
+				raw := proofJSON(&d.p)
+				if !d.jsonOK {
+					raw = []byte(`{"address":`)
+				} else if mut == "none" && g.Chance(1, 4) {
+					raw, mut = jsonMutation(g, raw)
+				} else if g.Chance(1, 5) {
+					raw = jsonSpaces(g, raw)
+				}
+				d.setRaw(raw)
 				d.ktab, d.vptab = d.tables(roots)
 				res := r.Do(d.line())
 				confClass := "enough"
@@ -753,4 +791,119 @@ func (f *evm) Gen(r *hx.Run) {
 		phase = "after-reorg"
 		runDeposits(total - total/2)
 	}
+}
+
+// proofJSON writes the proof in the eth_getProof response format with the field names spelled out here (NOT through
+// the struct tags of the code under test, so that a changed tag does not go unnoticed).
+func proofJSON(p *ccmeth.ETHProof) []byte {
+	q := func(s string) string {
+		b, _ := json.Marshal(s)
+		return string(b)
+	}
+	arr := func(l []string) string {
+		if l == nil {
+			return "null"
+		}
+		parts := make([]string, len(l))
+		for i, x := range l {
+			parts[i] = q(x)
+		}
+		return "[" + strings.Join(parts, ",") + "]"
+	}
+	sps := "null"
+	if p.StorageProofs != nil {
+		var parts []string
+		for _, sp := range p.StorageProofs {
+			parts = append(parts, fmt.Sprintf(`{"key":%s,"value":%s,"proof":%s}`, q(sp.Key), q(sp.Value), arr(sp.Proof)))
+		}
+		sps = "[" + strings.Join(parts, ",") + "]"
+	}
+	return []byte(fmt.Sprintf(`{"address":%s,"balance":%s,"codeHash":%s,"nonce":%s,"storageHash":%s,"accountProof":%s,"storageProof":%s}`,
+		q(p.Address), q(p.Balance), q(p.CodeHash), q(p.Nonce), q(p.StorageHash), arr(p.AccountProof), sps))
+}
+
+// jsonSpaces inserts white space between tokens (outside strings).
+func jsonSpaces(g *hx.Rng, raw []byte) []byte {
+	var out []byte
+	inStr := false
+	for i, c := range raw {
+		if c == '"' && (i == 0 || raw[i-1] != '\\') {
+			inStr = !inStr
+		}
+		out = append(out, c)
+		if !inStr && (c == ',' || c == ':' || c == '{' || c == '[') && g.Chance(1, 3) {
+			out = append(out, []byte{' ', '\n', '\t', '\r'}[g.Intn(4)])
+		}
+	}
+	return append([]byte(" \n"), append(out, ' ')...)
+}
+
+// jsonMutation edits the JSON TEXT of a valid proof: what encoding/json does with key case, duplicate keys, unknown
+// fields, nulls, wrong types, escapes, white space and trailing input is part of the deposit check.
+func jsonMutation(g *hx.Rng, raw []byte) ([]byte, string) {
+	s := string(raw)
+	rep := func(old, new string) string { return strings.Replace(s, old, new, 1) }
+	switch g.Intn(26) {
+	case 0:
+		return []byte(rep(`"address":`, `"ADDRESS":`)), "json:key-upper-case"
+	case 1:
+		return []byte(rep(`"storageProof":`, `"storageproof":`)), "json:key-lower-case"
+	case 2:
+		return []byte(rep(`"codeHash":`, `"CodeHash":`)), "json:key-mixed-case"
+	case 3:
+		return []byte(rep(`{"address":`, `{"nonce":"0xffff","address":`)), "json:duplicate-key-first-wrong"
+	case 4:
+		return []byte(s[:len(s)-1] + `,"nonce":"0xffff"}`), "json:duplicate-key-last-wrong"
+	case 5:
+		return []byte(rep(`{"address":`, `{"zzz":{"a":[1,-0,1.5e-3,true,false,null,"x\\n",{"b":[]}]},"Value":7,"address":`)), "json:unknown-fields"
+	case 6:
+		return []byte(regexpReplace(s, `"balance":"[^"]*"`, `"balance":null`)), "json:string-field-null"
+	case 7:
+		return []byte(regexpReplace(s, `"balance":"[^"]*"`, `"balance":17`)), "json:string-field-number"
+	case 8:
+		return []byte(regexpReplace(s, `"nonce":"[^"]*"`, `"nonce":["0x1"]`)), "json:string-field-array"
+	case 9:
+		return []byte(regexpReplace(s, `"accountProof":\[[^\]]*\]`, `"accountProof":null`)), "json:account-proof-null"
+	case 10:
+		return []byte(regexpReplace(s, `"accountProof":\[[^\]]*\]`, `"accountProof":"0xc0"`)), "json:account-proof-string"
+	case 11:
+		return []byte(rep(`"accountProof":[`, `"accountProof":[null,`)), "json:account-proof-null-element"
+	case 12:
+		return []byte(rep(`"accountProof":[`, `"accountProof":[5,`)), "json:account-proof-number-element"
+	case 13:
+		return []byte(regexpReplace(s, `"storageProof":\[.*\]\}$`, `"storageProof":null}`)), "json:storage-proof-null"
+	case 14:
+		return []byte(regexpReplace(s, `"storageProof":\[.*\]\}$`, `"storageProof":[null]}`)), "json:storage-proof-null-element"
+	case 15:
+		return []byte(regexpReplace(s, `"storageProof":\[.*\]\}$`, `"storageProof":["x"]}`)), "json:storage-proof-string-element"
+	case 16:
+		return []byte(s + "x"), "json:trailing-garbage"
+	case 17:
+		return []byte(s + s), "json:two-values"
+	case 18:
+		return [][]byte{[]byte("null"), []byte(" null "), []byte("[]"), []byte(`"str"`), []byte("123"), []byte(""), []byte("{}"), []byte("{"), []byte("nul")}[g.Intn(9)], "json:top-level-other"
+	case 19:
+		return []byte(rep(`"address":"0x`, `"address":"\\u0030x`)), "json:unicode-escape"
+	case 20:
+		return []byte(rep(`"address":"0x`, `"address":"\\q0x`)), "json:invalid-escape"
+	case 21:
+		return []byte(rep(`"address":"0x`, "\"address\":\"0\nx")), "json:control-char-in-string"
+	case 22:
+		return []byte(rep(`{"address":`, `{"n":`+[]string{"01", "1.", ".5", "+1", "1e", "-", "0x1", "1e+"}[g.Intn(8)]+`,"address":`)), "json:invalid-number"
+	case 23:
+		return []byte(regexpReplace(s, `\]\}$`, `,]}`)), "json:trailing-comma"
+	case 24:
+		return []byte(rep(`"key":`, `"KEY":`)), "json:nested-key-upper-case"
+	default:
+		return []byte(rep(`"proof":[`, `"value":{"x":1},"proof":[`)), "json:nested-value-wrong-type"
+	}
+}
+
+func regexpReplace(s, pat, repl string) string {
+	re := regexp.MustCompile(pat)
+	loc := re.FindStringIndex(s)
+	if loc == nil {
+		return s
+	}
+	return s[:loc[0]] + repl + s[loc[1]:]
 }
